@@ -12,14 +12,18 @@
 package main
 
 import (
+	"bufio"
 	"bytes"
 	"context"
+	"errors"
 	"fmt"
 	"go/ast"
 	"go/parser"
 	"go/token"
+	"io"
 	"math"
 	"math/rand"
+	"net"
 	"net/http"
 	"net/http/httptest"
 	"path/filepath"
@@ -59,8 +63,13 @@ type c09in struct {
 	Seg      int64  `json:"seg,omitempty"`  // index of the segment from the start of the stream
 	NowMS    int64  `json:"now_ms,omitempty"`
 	Why      string `json:"why,omitempty"` // which breakpoint the instant was taken from
-	URL      string `json:"url,omitempty"`
-	WholeURL string `json:"whole_url,omitempty"`
+	// Methods: the chunked and the whole-segment URL are also requested with HEAD and OPTIONS
+	Methods bool `json:"methods,omitempty"`
+	// BrokenBefore > 0: the same chunked URL is first requested by a client whose connection breaks at
+	// that Write call (short write + error); the ordinary request follows on the same instance
+	BrokenBefore int    `json:"broken_before,omitempty"`
+	URL          string `json:"url,omitempty"`
+	WholeURL     string `json:"whole_url,omitempty"`
 }
 
 type sampleObs struct {
@@ -103,18 +112,20 @@ type c09obs struct {
 	WholeSeq  uint32
 	WholeHTTP int
 	// asset facts (L1)
-	TS        int64
-	SegDurMS  int64
-	AtoMSInt  int64 // int(ato*1000) as the Go expression evaluates it
-	AtoMSChk  int64 // ato in exact milliseconds (time check)
-	AtoMicro  int64 // ato in exact microseconds (request guard)
-	AtoInf    bool
-	Outside   bool  // the harness's own statement: not (0 <= ato < segment duration), chunked mode has no chunk duration
-	Edge      bool  // inside the range but the offset rounded to ms is the segment duration
-	GuardOK   bool  // ato >= 0 && ato*1000 < float64(SegmentDurMS), the Go float64 expression of the handler
-	AvailMS   int64 // advertised end of the segment on the wall clock
-	Sleeps    bool
-	ElapsedMS int64
+	TS                                 int64
+	SegDurMS                           int64
+	AtoMSInt                           int64 // int(ato*1000) as the Go expression evaluates it
+	AtoMSChk                           int64 // ato in exact milliseconds (time check)
+	AtoMicro                           int64 // ato in exact microseconds (request guard)
+	AtoInf                             bool
+	Outside                            bool // the harness's own statement: not (0 <= ato < segment duration), chunked mode has no chunk duration
+	HeadChunked, HeadWhole, OptChunked int  // status of HEAD / OPTIONS for the same URLs (0 = not asked)
+	HeadBodyNote                       string
+	Edge                               bool  // inside the range but the offset rounded to ms is the segment duration
+	GuardOK                            bool  // ato >= 0 && ato*1000 < float64(SegmentDurMS), the Go float64 expression of the handler
+	AvailMS                            int64 // advertised end of the segment on the wall clock
+	Sleeps                             bool
+	ElapsedMS                          int64
 }
 
 // ---------------------------------------------------------------- parsing
@@ -453,6 +464,25 @@ func (e *l1env) run(in c09in) (o c09obs) {
 			o.Whole = append(o.Whole, w.Samples...)
 		}
 	}
+	if in.BrokenBefore > 0 {
+		func() {
+			defer func() { _ = recover() }()
+			bw := &breakingWriter{RecWriter: lib.NewRecWriter(), failAt: in.BrokenBefore}
+			e.ls.Srv.LiveRouter.ServeHTTP(bw, httptest.NewRequest("GET", in.URL, nil))
+		}()
+	}
+	if in.Methods {
+		do := func(method, url string) int {
+			defer func() { _ = recover() }()
+			w := lib.NewRecWriter()
+			e.ls.Srv.LiveRouter.ServeHTTP(w, httptest.NewRequest(method, url, nil))
+			if w.Code == 0 {
+				return 200
+			}
+			return w.Code
+		}
+		o.HeadChunked, o.HeadWhole, o.OptChunked = do("HEAD", in.URL), do("HEAD", in.WholeURL), do("OPTIONS", in.URL)
+	}
 	rec := e.ls.GetRecorded(in.URL)
 	o.HTTP = rec.Status
 	o.ElapsedMS = rec.EndUnixMS - rec.StartUnixMS
@@ -489,6 +519,23 @@ func (e *l1env) run(in c09in) (o c09obs) {
 		}
 	}
 	return o
+}
+
+// breakingWriter is a client connection that breaks: from the failAt-th Write call on, a Write takes
+// half of the bytes and reports an error.
+type breakingWriter struct {
+	*lib.RecWriter
+	failAt, n int
+}
+
+func (b *breakingWriter) Write(p []byte) (int, error) {
+	b.n++
+	if b.n >= b.failAt {
+		k := len(p) / 2
+		_, _ = b.RecWriter.Write(p[:k])
+		return k, errors.New("write: broken pipe")
+	}
+	return b.RecWriter.Write(p)
 }
 
 // ---------------------------------------------------------------- oracle
@@ -552,6 +599,18 @@ func oracle(c *lib.Ctx, id string, in c09in, o c09obs) {
 			fail("not-refused-early", fmt.Sprintf("request %d ms before the advertised availability time %d was answered with status %d", adv-in.NowMS, adv, o.HTTP))
 		case in.NowMS >= adv && in.NowMS <= adv+70000 && o.Status != 0:
 			fail("refused-when-available", fmt.Sprintf("request %d ms after the advertised availability time %d got status %d %s", in.NowMS-adv, adv, o.HTTP, o.Err))
+		}
+		if in.Methods {
+			// HEAD is GET without the body: same status, chunked or not; OPTIONS never delivers media
+			if o.HeadChunked != o.HTTP && o.HTTP != 0 {
+				fail("head-status", fmt.Sprintf("HEAD on the chunked URL answers %d, GET %d", o.HeadChunked, o.HTTP))
+			}
+			if o.HeadWhole != o.WholeHTTP && o.WholeHTTP != 0 {
+				fail("head-status", fmt.Sprintf("HEAD on the whole-segment URL answers %d, GET %d", o.HeadWhole, o.WholeHTTP))
+			}
+			if o.OptChunked >= 500 || o.OptChunked == 0 {
+				fail("options-status", fmt.Sprintf("OPTIONS on the chunked URL answers %d", o.OptChunked))
+			}
 		}
 		if o.HTTP != o.WholeHTTP {
 			fail("mode-status", fmt.Sprintf("chunked mode answers %d, whole-segment mode %d for the same URL and instant", o.HTTP, o.WholeHTTP))
@@ -966,6 +1025,10 @@ func (e *l1env) genL1(rng *rand.Rand, c *lib.Ctx) l1plan {
 						in2.NowMS, in2.Why = w.now, w.why
 						if in2.NowMS < 0 {
 							in2.NowMS = 0
+						}
+						in2.Methods = k == 0 || c.Thorough() // HEAD / OPTIONS before, at (all past) and after availability
+						if w.why == "all-past" && k == 1 {
+							in2.BrokenBefore = []int{1, 2, 3, 7, 40, 200}[rng.Intn(6)]
 						}
 						add("nowait:"+w.why, in2, false)
 					}
@@ -1383,13 +1446,84 @@ func (e *l1env) checkMPD(c *lib.Ctx, id string, in c09in) {
 // chi Timeout middleware of the full router) or by the client going away (request context) - may
 // deliver fewer chunks, but still none before its end time, and what it delivers is a prefix of the segment.
 type intrRes struct {
-	in     c09in
-	how    string
-	chunks []chunkObs
-	whole  []sampleObs
-	ts     int64
-	err    string
-	status int
+	post     []postRes // ordinary requests made on the same instance after the interruption
+	in       c09in
+	how      string
+	chunks   []chunkObs
+	whole    []sampleObs
+	ts       int64
+	err      string
+	status   int
+	headDiff []string
+}
+
+type postRes struct {
+	in c09in
+	o  c09obs
+}
+
+// tcpReset asks for a chunked segment over a real connection, reads the response head and the first
+// bytes of the first chunk and then resets the connection while the server is waiting for the next
+// chunk to become due; afterwards ordinary chunked requests are made on the same instance.
+func (e *l1env) tcpReset(seed int64) (res intrRes) {
+	a := e.assets["testpic_2s"]
+	res.how = "tcp-reset-after-first-chunk"
+	if a == nil {
+		res.err = "asset missing"
+		return res
+	}
+	srv := httptest.NewServer(e.ls.Srv.Router)
+	defer srv.Close()
+	r := a.Rep("V300")
+	in := c09in{Kind: "interrupted", Asset: a.Path, Rep: "V300", Ato: "1.5", Chunkdur: "0.5", Mode: "number", Seg: 5000 + seed%1000, Why: res.how}
+	in.NowMS = a.Ref().LoopE(in.Seg)*1000/a.Ref().Timescale - 1500
+	in.fillURLs(a, r, a.Ref())
+	res.in, res.ts = in, r.Timescale
+	conn, err := net.Dial("tcp", strings.TrimPrefix(srv.URL, "http://"))
+	if err != nil {
+		res.err = "dial: " + err.Error()
+		return res
+	}
+	fmt.Fprintf(conn, "GET %s HTTP/1.1\r\nHost: x\r\n\r\n", in.URL)
+	br := bufio.NewReader(conn)
+	_ = conn.SetReadDeadline(time.Now().Add(3 * time.Second))
+	buf := make([]byte, 2048)
+	if _, err := br.Read(buf); err != nil {
+		res.err = "no response before the reset: " + err.Error()
+	}
+	if tc, ok := conn.(*net.TCPConn); ok {
+		_ = tc.SetLinger(0) // RST
+	}
+	conn.Close()
+	time.Sleep(1200 * time.Millisecond) // the server's next chunks (due 0.5 s and 1 s later) hit the dead connection
+	for k := 0; k < 3; k++ {
+		pin := c09in{Kind: "l1", Asset: a.Path, Rep: []string{"V300", "A48", "V300"}[k], Ato: []string{"1.5", "1", "1.75"}[k], Chunkdur: "0.5", Mode: "number", Seg: 7000 + int64(k)*13 + seed%100, Why: "after a reset connection"}
+		pin.NowMS = a.Ref().LoopE(pin.Seg)*1000/a.Ref().Timescale + 3000
+		pin.fillURLs(a, a.Rep(pin.Rep), a.Ref())
+		res.post = append(res.post, postRes{pin, e.run(pin)})
+	}
+	// HEAD over the wire: GET's status, no body
+	for _, off := range []int64{-2000, 5000} {
+		hin := c09in{Kind: "l1", Asset: a.Path, Rep: "V300", Ato: "1.5", Chunkdur: "0.5", Mode: "number", Seg: 9000 + seed%100}
+		hin.NowMS = a.Ref().LoopE(hin.Seg)*1000/a.Ref().Timescale + off
+		hin.fillURLs(a, r, a.Ref())
+		for _, u := range []string{hin.URL, hin.WholeURL} {
+			g, err1 := http.Get(srv.URL + u)
+			h, err2 := http.Head(srv.URL + u)
+			if err1 != nil || err2 != nil {
+				res.err = fmt.Sprintf("GET/HEAD over the wire: %v %v", err1, err2)
+				continue
+			}
+			gb, _ := io.ReadAll(g.Body)
+			hb, _ := io.ReadAll(h.Body)
+			g.Body.Close()
+			h.Body.Close()
+			if g.StatusCode != h.StatusCode || len(hb) != 0 {
+				res.headDiff = append(res.headDiff, fmt.Sprintf("%s: GET %d (%d bytes), HEAD %d (%d bytes)", u, g.StatusCode, len(gb), h.StatusCode, len(hb)))
+			}
+		}
+	}
+	return res
 }
 
 func (e *l1env) runInterrupted(thorough bool) []intrRes {
@@ -1468,8 +1602,11 @@ func (e *l1env) runInterrupted(thorough bool) []intrRes {
 			out[i] = res
 		}(i, s)
 	}
+	wg.Add(1)
+	var tr intrRes
+	go func() { defer wg.Done(); tr = e.tcpReset(int64(len(specs))) }()
 	wg.Wait()
-	return out
+	return append(out, tr)
 }
 
 func (e *l1env) evalInterrupted(c *lib.Ctx, rs []intrRes) int {
@@ -1478,6 +1615,15 @@ func (e *l1env) evalInterrupted(c *lib.Ctx, rs []intrRes) int {
 		c.Res.Inputs[id] = r.in
 		c.Count("interrupted:" + r.how)
 		c.Count(fmt.Sprintf("interrupted:chunks-delivered=%d", len(r.chunks)))
+		for _, d := range r.headDiff {
+			c.Fail(id, "head-status", "over a real connection: "+d, r.in)
+		}
+		for k, pr := range r.post {
+			pid := fmt.Sprintf("%s-post%d", id, k)
+			c.Res.Inputs[pid] = pr.in
+			c.Count("after-broken-connection")
+			oracle(c, pid, pr.in, pr.o)
+		}
 		if r.err != "" {
 			c.Fail(id, "interrupted-error", r.err, r.in)
 			continue
